@@ -78,6 +78,23 @@ def isActive (st : SState) (h : Nat) (id : Nat) : Bool :=
 def unimplemented (st : SState) (h : Nat) (implemented : List Nat) : List SporkInfo :=
   st.filter (fun sp => sp.activated && sp.enf ≤ h && !implemented.contains sp.id)
 
+/-- The chain as the spork contract sees it: the contract's state as of every momentum height this node holds
+    (newest first). `histAt` is the state a block acknowledging the momentum of height `h` is judged against
+    (GetMomentumStore(id of height h)); `none` = this node has no momentum of that height. -/
+abbrev Hist := List (Nat × SState)
+
+def histAt (hist : Hist) (h : Nat) : Option SState := (hist.find? (·.1 = h)).map (·.2)
+
+/-- chain.RollbackTo: the momentums above `h` are popped, nothing about them is kept -/
+def rollbackHist (hist : Hist) (h : Nat) : Hist := hist.filter (·.1 ≤ h)
+
+/-- a reorganisation down to height `h`: the contract state becomes the one recorded for `h`, the abandoned heights
+    are forgotten (`none`: no momentum of height `h` on this node) -/
+def rollbackTo (hist : Hist) (h : Nat) : Option (SState × Hist) :=
+  match histAt hist h with
+  | some st => some (st, rollbackHist hist h)
+  | none => none
+
 /-- regime index used by the generated table: acc + 2*bridge + 4*htlc -/
 def regime (acc bridge htlc : Bool) : Nat := acc.toNat + 2 * bridge.toNat + 4 * htlc.toNat
 
